@@ -64,6 +64,15 @@ def match(sp, flt):
 
 
 FILTERS = [{"a": 1}, {"b": "x"}, {"a": {"$exists": True}}, {"b": {"$exists": False}}, {"n.k": 2}]
+# queries that read the job documents as well (a different index-building path: the state points still
+# come from the cache, the documents from the files)
+DOC_FILTERS = [{"doc.t": 1}, {"doc.t": {"$exists": True}}, {"a": 1, "doc.t": {"$exists": False}}]
+
+
+def match_full(sp, doc, flt):
+    spf = {k: v for k, v in flt.items() if not k.startswith("doc.")}
+    df = {k[4:]: v for k, v in flt.items() if k.startswith("doc.")}
+    return match(sp, spf) and match(doc, df)
 
 
 class Engine(EngineBase):
@@ -72,9 +81,10 @@ class Engine(EngineBase):
 
     def rule(self):
         return ("seeded histories (<= 40 steps) of init / remove / re-key / update_cache / restart / delete "
-                "cache file / open-all over <= 8 state points (refused re-keys included; open by full id and by "
+                "cache file / open-all / document write over <= 8 state points (refused re-keys included; open by full id and by "
                 "1-3 character abbreviations), pool width 1-4 with seeded interleaving of the "
-                "cache-filling tasks; every observation taken with and without the cache file. distinct = "
+                "cache-filling tasks; every observation (ids, len, state points, 5 state point and 3 document queries, membership, "
+                "abbreviated ids) taken with and without the cache file. distinct = "
                 "(abstract state: ids in workspace, ids in cache file, ids in the live session's memory) and "
                 "operation 3-grams; non-trivial = update_cache ran on a workspace that differed from the file")
 
@@ -88,11 +98,13 @@ class Engine(EngineBase):
         ops = []
         for _ in range(n):
             k = rng.choice(["init"] * 5 + ["remove"] * 2 + ["rekey"] * 2 + ["update_cache"] * 4
-                           + ["restart"] * 3 + ["rm_cache", "open_all"])
+                           + ["restart"] * 3 + ["rm_cache", "open_all", "doc"])
             if k == "init":
                 ops.append([k, rng.choice(pool)])
             elif k == "remove":
                 ops.append([k, rng.randrange(100)])
+            elif k == "doc":
+                ops.append([k, rng.randrange(100), rng.choice([0, 1, 1, "x"])])
             elif k == "rekey":
                 ops.append([k, rng.randrange(100), rng.choice(KEYS + "c"), rng.choice(VALS),
                             rng.choice(["item", "item", "assign", "update"])])
@@ -149,6 +161,7 @@ class Run:
         self.sessions = [self.proj, signac.Project(self.pp)]
         self.model = {}
         self.ever = {}  # every state point that ever existed (membership is asked for these too)
+        self.docs = {}  # id -> job document (only jobs whose document was written)
         self.probes = {}
         self.keys = []
         self.executed = 0
@@ -195,6 +208,15 @@ class Run:
             return
         self.proj.open_job(id=jid).remove()
         del self.model[jid]
+        self.docs.pop(jid, None)
+
+    def op_doc(self, op):
+        jid = self.pick(op[1])
+        if jid is None:
+            return
+        self.proj.open_job(id=jid).doc["t"] = op[2]
+        self.docs[jid] = {"t": op[2]}
+        self.probe("doc_written")
 
     def op_rekey(self, op):
         jid = self.pick(op[1])
@@ -231,6 +253,8 @@ class Run:
                            f"re-keying {jid[:8]} to {new} (an existing job) did not raise")
         go()
         del self.model[jid]
+        if jid in self.docs:
+            self.docs[cid(new)] = self.docs.pop(jid)
         self.model[cid(new)] = norm(new)
         self.ever[cid(new)] = norm(new)
 
@@ -343,6 +367,8 @@ class Run:
                "sps": {j: __import__('model.canon', fromlist=['canon']).canon(M[j]) for j in sorted(M)}}
         for i, f in enumerate(FILTERS):
             out[f"find{i}"] = sorted(j for j in M if match(M[j], f))
+        for i, f in enumerate(DOC_FILTERS):
+            out[f"dfind{i}"] = sorted(j for j in M if match_full(M[j], self.docs.get(j, {}), f))
         out["contains"] = {j: j in M for j in sorted(self.ever)}
         # open by abbreviated id: decided by the workspace alone
         pre = {}
@@ -371,6 +397,8 @@ class Run:
             def queries():
                 for i, f in enumerate(FILTERS):
                     out[f"find{i}"] = sorted(j.id for j in proj.find_jobs(f))
+                for i, f in enumerate(DOC_FILTERS):
+                    out[f"dfind{i}"] = sorted(j.id for j in proj.find_jobs(f))
 
             # opening every job by id fills the session's memory, after which the queries never miss the
             # cache: the two halves therefore come in either order
